@@ -89,7 +89,7 @@ SUB = [0, 4, 6, 11, 12, 14, 15, 28]
 
 
 def _queries(types=TYPES, syms=SYMS, cats=CATS):
-    qs = []
+    qs = [dict(q="allUnits"), dict(q="allUnitNames"), dict(q="quantityTypes"), dict(q="categories")]
     for c in cats:
         qs += [dict(q="validUnits", c=c), dict(q="catInfo", c=c), dict(q="createC", c=c)]
     for t in types:
@@ -415,7 +415,7 @@ def _check_history(ops):
             continue
         if op["k"] == "base":
             based.add(op["qt"])
-        for g in rc.registry_invariant(db, based):
+        for g in rc.getters_pure(db) + rc.registry_invariant(db, based):
             f = dict(g)
             f.update(step=i, call=_show_op(op), history=[_show_op(x) for x in ops[: i + 1]])
             if not g.get("no_base_registered"):
